@@ -297,6 +297,120 @@ theorem scratchpad_accept_partial (w : World) (b : Nat) (nb : NodeSt) (k n m : N
   simp only [nodeRsp, replWrites_pad_held nb.store k n m v hk hheld, this, if_false, putLocal]
   exact get_put_same _ _ _
 
+/-! ## retry after a lost fetch -/
+
+/-- **Retry after a lost fetch, step 1.** The fetch of `(k, t)` was lost: its in-flight entry is still registered at a
+`StaleQuiet` fetcher (past FETCH_TIMEOUT, nothing queued). The next single-key advertisement of that very version finds the
+entry occupied and schedules nothing — but the `next_keys_to_fetch` that ends `add_keys` prunes every timed-out entry,
+*although nothing is queued*, reports their holders, and leaves the fetcher empty. -/
+theorem lost_fetch_pruned (w : World) (dst src : Nat) (nd : NodeSt) (adv : List (Nat × Nat)) (k t : Nat)
+    (choice : List Entry) (hheard : heard w dst src = true) (hq : StaleQuiet nd.fetcher)
+    (honly : OnlyNew w dst nd src adv k t) (hstale : hasKT nd.fetcher.ogf k t = true) :
+    (nodeRep w dst nd src adv choice).2.ret = [] ∧
+    (nodeRep w dst nd src adv choice).1.fetcher.ogf = [] ∧
+    (nodeRep w dst nd src adv choice).1.fetcher.tbf = [] ∧
+    (nodeRep w dst nd src adv choice).1.fetcher.farthest = none ∧
+    (nodeRep w dst nd src adv choice).1.store = nd.store ∧
+    (∀ e ∈ nd.fetcher.ogf, Fetcher.heldSame (indexOf nd.store) e = false →
+      e.holder ∈ (nodeRep w dst nd src adv choice).2.failed) := by
+  rw [nodeRep_eq w dst nd src adv choice hheard]
+  simp only
+  obtain ⟨ht, hf, hexp⟩ := hq
+  let dist := w.kdist dst
+  let s := nd.fetcher
+  let loc := indexOf nd.store
+  obtain ⟨X, hst, hret, _⟩ := addKeys_shape' dist s src adv loc choice
+  have hcf := SafeNet.Fetcher.addCore_fields dist s src adv loc
+  have hnew : SafeNet.Fetcher.newOf dist s loc src adv = [(k, t)] := honly
+  -- the stale entry survives `remove_stored_keys`: the advertised version is not held
+  have hadm : admits dist s loc src (k, t) = true := by
+    have : (k, t) ∈ adv.filter (admits dist s loc src) := by
+      rw [show adv.filter (admits dist s loc src) = [(k, t)] from honly]; exact List.mem_singleton.2 rfl
+    exact (List.mem_filter.1 this).2
+  have hnotheld : loc.lookup k ≠ some t := by
+    intro hh
+    simp [admits, SafeNet.Fetcher.skipHeld, SafeNet.Fetcher.skip_same, hh] at hadm
+  have hog : hasKT (SafeNet.Fetcher.ogf1 s loc) k t = true := by
+    obtain ⟨e, he, hek, het⟩ := (SafeNet.Fetcher.hasKT_true_iff _ _ _).1 hstale
+    refine (SafeNet.Fetcher.hasKT_true_iff _ _ _).2 ⟨e, List.mem_filter.2 ⟨he, ?_⟩, hek, het⟩
+    simp only [SafeNet.Fetcher.heldSame, hek, het, Bool.not_eq_true', beq_eq_false_iff_ne, ne_eq]
+    exact hnotheld
+  rcases SafeNet.Fetcher.addCore_cases dist s src adv loc with ⟨p, hp, _, hc⟩ | ⟨p, hp, hk', _⟩ | ⟨hlen, _⟩
+  · -- occupied: nothing scheduled by the fast path; the final `next_keys_to_fetch` prunes
+    have htb : (addCore dist s src adv loc).1.tbf = [] := by
+      have ht' : s.tbf = [] := ht
+      rw [hc]; simp [SafeNet.Fetcher.tbf2, SafeNet.Fetcher.tbf1, ht']
+    obtain ⟨h1, h2, h3⟩ := nextKeys_tbf_nil dist (addCore dist s src adv loc).1 X htb
+    have hpo : SafeNet.Fetcher.pOgf (addCore dist s src adv loc).1 = [] := by
+      apply pOgf_nil_of_expired
+      intro e he
+      rw [hc] at he ⊢
+      exact hexp e (List.mem_filter.1 he).1
+    have hfast : (addCore dist s src adv loc).2 = [] := by rw [hc]
+    have hfields := SafeNet.Fetcher.nextKeys_fields dist (addCore dist s src adv loc).1 X
+    refine ⟨?_, ?_, ?_, ?_, trivial, ?_⟩
+    · show (addKeys dist s src adv loc choice).2.ret = []
+      rw [hret, hfast, h1]; rfl
+    · show (addKeys dist s src adv loc choice).1.ogf = []
+      rw [hst, h3, hpo]
+    · show (addKeys dist s src adv loc choice).1.tbf = []
+      rw [hst, h2]
+    · show (addKeys dist s src adv loc choice).1.farthest = none
+      rw [hst, hfields.2.1, hcf.2.1]; exact hf
+    · intro e he hes
+      obtain ⟨X', ill, hx⟩ := SafeNet.Fetcher.addKeys_shape dist s src adv loc choice
+      show e.holder ∈ (addKeys dist s src adv loc choice).2.failed
+      rw [hx]
+      simp only
+      rw [(SafeNet.Fetcher.nextKeys_fields dist (addCore dist s src adv loc).1 X').2.2.2]
+      apply SafeNet.Fetcher.mem_failedOf (o := e)
+      · rw [hc]; exact List.mem_filter.2 ⟨he, by rw [show Fetcher.heldSame loc e = false from hes]; rfl⟩
+      · rw [hc]; exact hexp e he
+  · rw [hnew] at hp
+    obtain rfl : (k, t) = p := by simpa using hp
+    rw [hog] at hk'; cases hk'
+  · rw [hnew] at hlen; exact absurd rfl hlen
+
+/-- **Retry after a lost fetch, step 2 — eventual fetch.** After that pruning advertisement, the next single-key
+advertisement of the record (same store, from any heard holder `src'`) schedules the fetch: two advertisements after
+the FETCH_TIMEOUT of a lost fetch suffice for the record to be requested again. -/
+theorem eventual_fetch_after_timeout (w : World) (dst src src' : Nat) (nd : NodeSt) (adv adv' : List (Nat × Nat))
+    (k t : Nat) (c1 c2 : List Entry) (hheard : heard w dst src = true) (hheard' : heard w dst src' = true)
+    (hq : StaleQuiet nd.fetcher) (honly : OnlyNew w dst nd src adv k t) (hstale : hasKT nd.fetcher.ogf k t = true)
+    (honly' : OnlyNew w dst { nd with fetcher := {} } src' adv' k t) :
+    let nd1 := (nodeRep w dst nd src adv c1).1
+    ∃ e ∈ (nodeRep w dst nd1 src' adv' c2).2.ret, e.key = k ∧ e.ty = t ∧ e.holder = src' := by
+  intro nd1
+  obtain ⟨_, h2, h3, h4, h5, _⟩ := lost_fetch_pruned w dst src nd adv k t c1 hheard hq honly hstale
+  have hon : OnlyNew w dst nd1 src' adv' k t := by
+    unfold OnlyNew at honly' ⊢
+    have : ∀ p, admits (w.kdist dst) nd1.fetcher (indexOf nd1.store) src' p =
+        admits (w.kdist dst) ({ nd with fetcher := {} } : NodeSt).fetcher (indexOf ({ nd with fetcher := {} } : NodeSt).store) src' p := by
+      intro p
+      show admits (w.kdist dst) (nodeRep w dst nd src adv c1).1.fetcher (indexOf (nodeRep w dst nd src adv c1).1.store) src' p = _
+      simp only [admits, h3, h4, h5]
+    rw [List.filter_congr (fun p _ => this p)]
+    exact honly'
+  have hfly : hasKT nd1.fetcher.ogf k t = false := by
+    show hasKT (nodeRep w dst nd src adv c1).1.fetcher.ogf k t = false
+    rw [h2]; rfl
+  obtain ⟨⟨e, he, a, b, c⟩, _⟩ := single_new_scheduled w dst src' nd1 adv' k t c2 hheard' hon hfly
+  exact ⟨e, he, a, b, c⟩
+
+/-- the same through the system-level transitions: the reply to node 1's fetch of chunk 0 is lost; 25 s later (past
+FETCH_TIMEOUT) node 0's next single-key advertisement only prunes the dead entry (node 0 reported), the one after it is
+fetched, and node 1 ends up holding the chunk with nothing in flight -/
+example :
+    let s := run padWorld (init 2)
+      [.seed 0 0 .chunk [], .interval 0, .deliver 1 [⟨0, 0, 0, 0⟩], .deliver 2 [], .drop 3,
+       .tick 1 25, .tick 0 50, .interval 0, .deliver 4 [],
+       .tick 0 50, .interval 0, .deliver 5 [⟨0, 0, 0, 0⟩], .deliver 6 [], .deliver 7 []]
+    (s.node 1).store.get 0 = some .chunk ∧ (s.node 1).fetcher.ogf = [] ∧ s.wire = [] ∧
+    (step padWorld (run padWorld (init 2)
+      [.seed 0 0 .chunk [], .interval 0, .deliver 1 [⟨0, 0, 0, 0⟩], .deliver 2 [], .drop 3,
+       .tick 1 25, .tick 0 50, .interval 0]) (.deliver 4 [])).2.failed = [0] := by
+  decide
+
 /-! ## (4) mutable records converge -/
 
 /-- one directed exchange about key `k`: `src` advertises its whole index to `dst`; if the fetch of `k` from `src` is
@@ -1069,5 +1183,7 @@ example : (runXs padWorld chunkNodes chunkSched 1).store.get 0 = some .chunk ∧
 #print axioms SafeNet.Props.C09.immutable_converge
 #print axioms SafeNet.Replication.exchange_join_chunk
 #print axioms SafeNet.Props.C09.chunkValid
+#print axioms SafeNet.Props.C09.lost_fetch_pruned
+#print axioms SafeNet.Props.C09.eventual_fetch_after_timeout
 
 end SafeNet.Props.C09
